@@ -2845,7 +2845,16 @@ where
     where
         K::Scalar: ScalarSummable,
     {
-        let mut grid_index = grid_cell_size.map(HashGridIndex::new);
+        // The insertion-time duplicate query only visits the 3^D grid cells around a point, so the
+        // cells must be at least as wide as the duplicate tolerance (an epsilon-dedup grid can be finer).
+        let min_cell_size = default_duplicate_tolerance::<K::Scalar>();
+        let mut grid_index = grid_cell_size.map(|cell_size| {
+            HashGridIndex::new(if cell_size < min_cell_size {
+                min_cell_size
+            } else {
+                cell_size
+            })
+        });
         if let Some(grid) = grid_index.as_mut()
             && !grid.is_usable()
         {
